@@ -53,12 +53,13 @@ int Normaliser::polyAtom(const char *kind, const Poly &p, int rep, int bytes) {
 // iff sum_k P_k D^(K-k) does.  Atoms are eliminated newest first (a nested denominator was created before the atom
 // whose polynomial contains it), so every step removes one atom and introduces none.
 bool Normaliser::zeroModDenominators(Poly p) {
+  lastNumeratorAtomFree = 0;
   for (int round = 0; round < 64; round++) {
     if (p.empty()) return true;
     if (capped || pastDeadline()) return false;
     int v = -1; int K = 0;
     for (auto &kv : p) for (auto &ve : kv.first) if (ve.second > 0 && invKey.count(ve.first) && ve.first > v) v = ve.first;
-    if (v < 0) return false;
+    if (v < 0) { bool atoms = false; for (auto &kv : p) for (auto &ve : kv.first) if (TT.t[ve.first].op != TT.OP_SYM) atoms = true; lastNumeratorAtomFree = atoms ? 0 : 1; return false; }
     for (auto &kv : p) for (auto &ve : kv.first) if (ve.first == v) K = std::max(K, ve.second);
     const Poly D = invKey[v];
     std::vector<Poly> pw(K + 1); pw[0] = pconst(Q(1)); for (int k = 1; k <= K; k++) { pw[k] = pmul(pw[k - 1], D); if (pw[k].size() > cap) { capped = true; return false; } }
@@ -731,7 +732,8 @@ CmpResult Comparer::compare(int a, int b, const std::string &mode, bool fp, int 
   if (mode == "ALG" || (mode == "EXACT" && !fp)) {
     Poly pa = N.norm(a, fp), pb = N.norm(b, fp);
     if (!N.capped && !N.overflow && pa == pb) { res.how = "polynomial"; nPoly++; return res; }
-    if (!N.capped && !N.overflow && mode == "ALG" && !N.invKey.empty()) { Poly d = pa; padd(d, pb, -1); if (N.zeroModDenominators(d)) { res.how = "polynomial (denominators cleared)"; nPoly++; return res; } }
+    if (!N.capped && !N.overflow && mode == "ALG" && !N.invKey.empty()) { Poly d = pa; padd(d, pb, -1); if (N.zeroModDenominators(d)) { res.how = "polynomial (denominators cleared)"; nPoly++; return res; }
+      if (N.lastNumeratorAtomFree && !N.capped && !N.overflow) { res.v = V_VIOLATION; res.how = "after clearing denominators the numerator is a non-zero atom-free polynomial"; res.got = polyStr(pa); res.expected = polyStr(pb); nRefuted++; return res; } }
     if (N.capped || N.overflow) { res.v = V_UNDECIDED; res.how = "normal form exceeded the size cap"; nUndecided++; return res; }
     if (res.got.empty()) { res.got = polyStr(pa); res.expected = polyStr(pb); }
     if (mode == "ALG" && !polyHasAtoms(pa) && !polyHasAtoms(pb)) structuralOnly = true; // atom-free forms: the mismatch is complete
@@ -772,7 +774,7 @@ CmpResult Comparer::compare(int a, int b, const std::string &mode, bool fp, int 
   bool exactBits = (mode == "EXACT"); int savedPoints = points; if (mode == "MINMAX") points = 8;
   bool refuted = refute(a, b, fp, bytes, exactBits, pt, va, vb, evaluable); points = savedPoints;
   if (refuted) { res.v = V_VIOLATION; res.how = "refuted at a point"; res.point = pt + "  => got " + va + ", expected " + vb; nRefuted++; return res; }
-  if (structuralOnly && !evaluable) { res.v = V_VIOLATION; res.how = "atom-free polynomial normal forms differ"; nRefuted++; return res; }
+  if (structuralOnly) { res.v = V_VIOLATION; res.how = "atom-free polynomial normal forms differ"; nRefuted++; return res; } // distinct canonical Laurent polynomials over Q are distinct functions: some point separates them
   res.v = V_UNDECIDED; res.how = evaluable ? "normal forms differ but no tested point separates the terms" : "normal forms differ and the terms cannot be evaluated"; nUndecided++;
   return res;
 }
@@ -787,7 +789,7 @@ CmpResult Comparer::isZero(int a, bool fp) {
   std::string pt, va, vb; bool evaluable = false;
   int zero = fp ? TT.cfp(0, TT.t[a].bytes) : TT.cint(0, TT.t[a].bytes);
   if (refute(a, zero, fp, TT.t[a].bytes, false, pt, va, vb, evaluable)) { res.v = V_VIOLATION; res.how = "refuted at a point"; res.point = pt + "  => got " + va + ", expected 0"; nRefuted++; return res; }
-  if (!polyHasAtoms(p) && !evaluable) { res.v = V_VIOLATION; res.how = "atom-free polynomial is not zero"; nRefuted++; return res; }
+  if (!polyHasAtoms(p)) { res.v = V_VIOLATION; res.how = "atom-free polynomial is not zero"; nRefuted++; return res; }
   res.v = V_UNDECIDED; res.how = "non-zero normal form, not refuted"; nUndecided++; return res;
 }
 
